@@ -2,8 +2,8 @@ package rules
 
 func init() {
 	register("C03", Meta{
-		Explanation: "Static completeness: every go/ast node type has a fragger and a decorate case and every dst node type a restore case (panicking default); every token, string, value and child field of every go/ast struct is consumed by decorate and written back by restore; fragger and restore agree on children and tokens; converter type assertions cannot fail; comment sinks agree. Decides that no token/child/value field is dropped in either direction for any input; does not decide token text equality after go/printer nor scanner-level concerns (CRLF, BOM).",
-		NotCovered:  []string{"token text equality after go/printer", "CRLF/BOM handling inside go/scanner", "whether link() finds a decoration point for every comment (positional)"},
+		Explanation: "Static completeness: every go/ast node type has a fragger and a decorate case and every dst node type a restore case (panicking default); every token, string, value and child field of every go/ast struct is consumed by decorate and written back by restore; fragger and restore agree on children and tokens; converter type assertions cannot fail; comment sinks agree. Decides that no token/child/value field is dropped in either direction for any input; line discovery does not measure texts in bytes of scanner-normalised text (CRLF) and does not decide emptiness of a line by a fixed byte distance (known finding); a line-break decoration never puts the End() of the restored content on the next line. Does not decide token text equality after go/printer.",
+		NotCovered:  []string{"token text equality after go/printer", "BOM handling inside go/scanner", "whether link() finds a decoration point for every comment (positional)"},
 	}, func(e *Env) {
 		e.RCover("fragger", e.astNodeNames(), false)
 		e.RCover("decorate", e.astNodeNames(), false)
@@ -15,6 +15,7 @@ func init() {
 		e.RFragHelpers()
 		e.RFragOrder()
 		e.RNewlineScan()
+		e.RBlankLine()
 		e.RCommentLines()
 	})
 	register("C04", Meta{
